@@ -446,6 +446,8 @@ From SJ Require Import Base.Bytes Base.Utf8 Gen.Tables Model.Read Model.Str Mode
 From SJ Require Model.ScanAst Model.StrAst Proofs.StrSrc Proofs.StrSrc2.
 Require Import Lia ZifyBool ZifyNat ZifyN.
 From SJ Require Import Proofs.StrScanSrc2.
+Local Open Scope string_scope.
+Local Open Scope list_scope.
 Theorem C05_string_scanning_is_source : forall (E : env) (sl : bytes) (s : st) (buf : bytes) (fuel mfuel : nat),
   let len := length (rest s) in
   let run := fun fn args => run_scan fuel E STR_PROG SCAN_PROG sl fn args s buf in
